@@ -17,6 +17,7 @@ type bwarrior struct {
 }
 
 type bcase struct {
+	recorder *gmars.StateRecorder
 	cfg      gmars.SimulatorConfig
 	flags    int64
 	maxsteps int
@@ -144,6 +145,10 @@ func setup(e *emitter, bc *bcase, rr *recRep) (gmars.ReportingSimulator, []gmars
 	}
 	e.rec(1, 1)
 	sim.AddReporter(rr)
+	if bc.flags&32 != 0 {
+		bc.recorder = gmars.NewStateRecorder(sim)
+		sim.AddReporter(bc.recorder)
+	}
 	var ws []gmars.Warrior
 	for i := range bc.ws {
 		w, _ := sim.AddWarrior(&gmars.WarriorData{Code: bc.ws[i].code, Start: bc.ws[i].start})
@@ -174,6 +179,31 @@ func setup(e *emitter, bc *bcase, rr *recRep) (gmars.ReportingSimulator, []gmars
 	return sim, ws, true
 }
 
+// runRot: kind 4 = [k; j; battle...]: the battle as given, the marker record 50,
+// then the same battle with every offset increased by k + j*M.
+func runRot(e *emitter, c []int64) {
+	if len(c) < 3 {
+		e.rec(0)
+		return
+	}
+	k, j := c[0], c[1]
+	runBattle(e, c[2:])
+	e.rec(50)
+	bc, ok := rdBcase(c[2:])
+	if !ok {
+		return
+	}
+	m := int64(bc.cfg.CoreSize)
+	// re-encode with shifted offsets
+	d := append([]int64{}, c[2:]...)
+	pos := 8
+	for i := 0; i < len(bc.ws); i++ {
+		d[pos+2] = d[pos+2] + k + j*m
+		pos += 3 + 6*len(bc.ws[i].code)
+	}
+	runBattle(e, d)
+}
+
 func runBattle(e *emitter, c []int64) {
 	bc, ok := rdBcase(c)
 	if !ok {
@@ -185,6 +215,10 @@ func runBattle(e *emitter, c []int64) {
 	sim, ws, ok := setup(e, bc, rr)
 	if !ok {
 		return
+	}
+	var rec *gmars.StateRecorder
+	if fl&32 != 0 {
+		rec = bc.recorder
 	}
 	for k := 0; k < bc.maxsteps; k++ {
 		if finished(sim) {
@@ -202,17 +236,32 @@ func runBattle(e *emitter, c []int64) {
 			return false
 		}()
 		if panicked {
+			// the state after a panic is not observed
 			e.rec(9, 1)
-			break
+			return
 		}
 		e.rec(observe([]int64{3, int64(ret)}, sim, ws, fl&4 != 0)...)
 		if fl&1 != 0 {
 			e.rec(encReports([]int64{4}, rr.reps)...)
 		}
+		if fl&16 != 0 {
+			e.rec(dumpCore([]int64{11}, sim)...)
+		}
 	}
 	e.rec(observe([]int64{5}, sim, ws, fl&4 != 0)...)
 	if fl&8 != 0 {
 		e.rec(dumpCore([]int64{6}, sim)...)
+	}
+	if rec != nil {
+		out := []int64{13}
+		if !guard(func() {
+			for a := gmars.Address(0); a < sim.CoreSize(); a++ {
+				st, col := rec.GetMemState(a)
+				out = append(out, int64(st), int64(col))
+			}
+		}) {
+			e.rec(out...)
+		}
 	}
 	if fl&2 != 0 {
 		// a fresh simulator driven by one Run() call
@@ -284,4 +333,58 @@ func setupSilent(bc *bcase, rr *recRep) (gmars.ReportingSimulator, []gmars.Warri
 	return sim, ws, true
 }
 
-func runCaseMore(e *emitter, c []int64) bool { return false }
+func runCaseMore(e *emitter, c []int64) bool {
+	switch c[0] {
+	case 2:
+		runApi(e, c[1:])
+		return true
+	case 4:
+		runRot(e, c[1:])
+		return true
+	case 3:
+		runConfig(e, c[1:])
+		return true
+	}
+	return false
+}
+
+// runConfig: kind 3 = [mode M P C R W Len Dist]: creation must return an error
+// or a simulator; an accepted configuration then runs an imp for a few cycles.
+func runConfig(e *emitter, c []int64) {
+	if len(c) < 8 {
+		e.rec(0)
+		return
+	}
+	cfg := gmars.SimulatorConfig{Mode: gmars.SimulatorMode(c[0]), CoreSize: gmars.Address(c[1]), Processes: gmars.Address(c[2]),
+		Cycles: gmars.Address(c[3]), ReadLimit: gmars.Address(c[4]), WriteLimit: gmars.Address(c[5]),
+		Length: gmars.Address(c[6]), Distance: gmars.Address(c[7])}
+	var sim gmars.Simulator
+	var err error
+	if guard(func() { sim, err = gmars.NewSimulator(cfg) }) {
+		e.rec(1, 2)
+		return
+	}
+	if err != nil {
+		e.rec(1, 0)
+		return
+	}
+	e.rec(1, 1)
+	// an imp with a split in front, stepped a few cycles
+	code := []gmars.Instruction{{Op: gmars.SPL, OpMode: gmars.B, A: 1}, {Op: gmars.MOV, OpMode: gmars.I, A: 0, B: 1}}
+	var ws []gmars.Warrior
+	if guard(func() {
+		w, _ := sim.AddWarrior(&gmars.WarriorData{Code: code, Start: 0})
+		ws = append(ws, w)
+		sim.SpawnWarrior(0, 0)
+	}) {
+		e.rec(9, 0)
+		return
+	}
+	for k := 0; k < 4; k++ {
+		if guard(func() { sim.RunCycle() }) {
+			e.rec(9, 1)
+			return
+		}
+		e.rec(observe([]int64{3, 0}, sim, ws, false)...)
+	}
+}
